@@ -5,6 +5,6 @@ WT=$(mktemp -d /tmp/try-XXXX); rmdir $WT
 git -C /repo worktree add -q --detach $WT HEAD || exit 2
 if ! git -C $WT apply $P; then echo "PATCH DOES NOT APPLY"; git -C /repo worktree remove --force $WT; exit 3; fi
 for id in "$@"; do
-  GOSYM_REPO=$WT timeout 2400 /verif/bin/gosym check $id --tier quick --evidence /tmp/try-ev.json 2>&1 | grep -v "^KNOWN" | tail -3 | cut -c1-220
+  GOSYM_CEX_DIR=/tmp/try-cex GOSYM_REPO=$WT timeout 2400 /verif/bin/gosym check $id --tier quick --evidence /tmp/try-ev.json 2>&1 | grep -v "^KNOWN" | tail -3 | cut -c1-220
 done
 git -C /repo worktree remove --force $WT; rm -rf $WT /tmp/try-ev.json
